@@ -261,6 +261,7 @@ func UpdatePathAggregator4ByteAs(msg *bgp.BGPUpdate) error {
 			case reflect.Uint16:
 				aggAttr = attr
 				aggAttr.Value.Askind = reflect.Uint32
+				aggAttr.Length = 8
 			case reflect.Uint32:
 				aggAttr = attr
 			}
